@@ -350,6 +350,7 @@ class FnUninit:
                     cases.append((rc, self.edge(p, b, self.OUT[p.id])))
             else:
                 cases.append((self.ret_const(t), st))
+            cases = self.expand_call_classes(cases, v if not cases or len(cases) == 1 else None, b)
             for rc, stt in cases:
                 for r in self.objs:
                     if r[0] != "arg": continue
@@ -360,6 +361,36 @@ class FnUninit:
             s.mw[k] = allm[k] & rng(0, size)
             s.mw_ret[k] = {rc: (m & rng(0, size)) for rc, m in per_param[k].items()}
         return s
+
+
+def _expand(self, cases, v, b):
+    """`return f(...)`: the caller's return classes are the callee's, each with the callee's per-class must-writes"""
+    if v is None or v["k"] != "inst": return cases
+    src = v
+    for _ in range(4):
+        si = self.fn.imap[src["v"]]
+        if si.op in ("zext", "sext", "trunc") and si.ops[0]["k"] == "inst": src = si.ops[0]
+        else: break
+    ci = self.fn.imap[src["v"]]
+    if ci.op != "call" or ci.get("callee") not in self.eng.summ or len(cases) != 1 or cases[0][0] is not None: return cases
+    s = self.eng.summary_for(ci); st0 = cases[0][1]
+    classes = set()
+    for n in s.mw_ret: classes |= set(s.mw_ret[n])
+    if not classes: return cases
+    out = []
+    for rc in classes:
+        st = dict(st0)
+        for n in range(ci["nargs"]):
+            a = ci.ops[n]
+            if not a["t"].endswith("*") or n not in s.mw_ret: continue
+            root, off = self.addr(a)
+            if root is None or off is None: continue
+            st[root] |= (s.mw_ret[n].get(rc, 0) << off) & ALL
+        out.append((rc, st))
+    return out
+
+
+FnUninit.expand_call_classes = _expand
 
 
 class Engine:
